@@ -12,6 +12,8 @@ import sys, os, ast, re, json, glob
 sys.path.insert(0, os.path.dirname(os.path.abspath(__file__)))
 from common import *
 
+OUTPUTS = ['Actions.v']
+
 def is_action_target(t):
     return (isinstance(t, ast.Name) and t.id == 'action') or (isinstance(t, ast.Attribute) and t.attr == 'action')
 
